@@ -43,7 +43,8 @@ ERRORS = [
 ]
 
 
-QUICK_DEPTH2 = ("add-int-str", "arity+1", "argtype", "undefined-name", "str-attr")
+# one compile costs ~0.3 CPU-s: depth 2 keeps two of the five categories in quick (operator on unsupported operand types, undefined name)
+QUICK_DEPTH2 = ("add-int-str", "undefined-name")
 
 
 def space(tier):
